@@ -70,12 +70,12 @@ def verify_function(args):
 
 
 def run_one_harness(args):
-    prop, name, tier, seed = args
+    prop, name, tier, seed, k, n = args
     from pyvc import bounded
     mod = load_prop(prop)
     h = next(x for x in mod.HARNESSES if x.name == name)
     budget = getattr(h, "budget_s", {}).get(tier)
-    return bounded.run_harness(h, tier, seed, budget_s=budget)
+    return bounded.run_harness(h, tier, seed, budget_s=budget, shard=(k, n))
 
 
 # ------------------------------------------------------------------------------------------------ helpers
@@ -124,12 +124,28 @@ def check_property(prop, tier, seed, rebaseline=False, jobs=None):
     harnesses = list(getattr(mod, "HARNESSES", []))
     jobs = jobs or min(16, os.cpu_count() or 4)
     tasks_f = [(prop, k) for k in contracts if not k.startswith("__") and contracts[k].get("prop", prop) == prop and not contracts[k].get("assumed")]
-    tasks_h = [(prop, h.name, tier, seed) for h in harnesses if tier in getattr(h, "tiers", ("quick", "thorough"))]
+    tasks_h = [(prop, h.name, tier, seed, k, getattr(h, "shards", 1)) for h in harnesses
+               if tier in getattr(h, "tiers", ("quick", "thorough")) for k in range(getattr(h, "shards", 1))]
     with mp.get_context("fork").Pool(jobs) as pool:
         fr = pool.map_async(verify_function, tasks_f, chunksize=1)
         hr = pool.map_async(run_one_harness, tasks_h, chunksize=1)
         fres = fr.get()
-        hres = hr.get()
+        hres_sh = hr.get()
+    # merge the shards of one harness
+    merged = {}
+    for r in hres_sh:
+        m = merged.get(r["harness"])
+        if m is None:
+            merged[r["harness"]] = r
+            continue
+        for k in ("evaluations", "distinct_nontrivial"):
+            m[k] += r[k]
+        m["seconds"] = max(m["seconds"], r["seconds"])
+        m["exhaustive"] = m["exhaustive"] and r["exhaustive"]
+        m["failures"].extend(r["failures"])
+        m["samples"] = (m["samples"] + r["samples"])[:3]
+        m["crashed"] = m["crashed"] or r["crashed"]
+    hres = list(merged.values())
 
     lines = []
     violations = []
